@@ -318,3 +318,62 @@ def lines_by_tag(lines):
 
 def strip_pulls(items):
     return [x.split("@")[0] for x in items if not x.startswith("@")]
+
+
+# ------------------------------------------------------------------ certificate on impl images
+CERT_PROPS = {"C01", "C02", "C05", "C06", "C07", "C11", "C13", "C15"}
+
+
+def run_cert_images(cases, impl, drv, drv_key, tag, timeout=1800):
+    """give the bytes the implementation serialised (IMGHEX lines) to the Coq-proved checker.
+    -> {case id: (ok '1'/'0'/'-', count, note)}"""
+    todo = []
+    for c in cases:
+        if c.var != "bw" or not (c.kind == 0 or c.entry in ("new", "with_values")):
+            continue
+        lines = impl.get(c.id, [])
+        hx = [l.split(" ", 1)[1] for l in lines if l.startswith("IMGHEX ")]
+        if "BUILD ok" not in lines or not hx:
+            continue
+        todo.append((c, hx[0]))
+    if not todo or not drv:
+        return {}
+    wd = os.path.join(BUILD, "runs", tag)
+    os.makedirs(wd, exist_ok=True)
+    shards = [todo[i::NCPU] for i in range(NCPU)]
+    shards = [s for s in shards if s]
+    res = {}
+
+    def one(i, sh):
+        path = os.path.join(wd, f"cert{i}.case")
+        with open(path, "w") as f:
+            for c, hx in sh:
+                f.write(f"CASE {c.id}\nVAR bw\nKIND {c.kind}\nVT {c.vt}\nENTRY {c.entry}\n")
+                for pat, v in c.pats:
+                    f.write(f"P {pat.hex() if pat else '-'} {v}\n")
+                f.write(f"IMGHEX {hx}\nEND\n")
+        text = open(path).read()
+        cdir = os.path.join(BUILD, "cache")
+        os.makedirs(cdir, exist_ok=True)
+        cpath = os.path.join(cdir, sha(drv_key + "cert" + text) + ".cert")
+        if os.path.exists(cpath):
+            return open(cpath).read()
+        rc, out = sh_run(f"ulimit -s unlimited 2>/dev/null; exec {drv} --cert-image {path}", timeout)
+        if rc == 0:
+            open(cpath, "w").write(out)
+        return out
+    with ThreadPoolExecutor(max_workers=NCPU) as ex:
+        futs = [ex.submit(one, i, s) for i, s in enumerate(shards)]
+        for f in futs:
+            for cid, lines in parse_obs(f.result()).items():
+                for l in lines:
+                    if l.startswith("ICERT"):
+                        p = l.split()
+                        res[cid] = (p[1], int(p[2]), " ".join(p[3:]))
+    for c, _ in todo:
+        res.setdefault(c.id, ("0", 0, "checker did not answer (timeout or crash)"))
+    return res
+
+
+def sh_run(cmd, timeout):
+    return sh(cmd, timeout=timeout)
